@@ -61,8 +61,8 @@ def mTyp (n : Node) : List (String × Json) :=
 
 def mVocab (n : Node) : List (String × Json) :=
   match n.vocabulary with
-  | some (v :: vs) => [("$vocabulary", Json.obj (sortKV ((v :: vs).map fun (k, b) => (k, Json.bool b))))]
-  | _ => []
+  | some vs => [("$vocabulary", Json.obj (sortKV (vs.map fun (k, b) => (k, Json.bool b))))]
+  | none => []
 
 def mDepReq (n : Node) : List (String × Json) :=
   match n.dependentRequired with
@@ -93,11 +93,10 @@ def mFinish (members : List (String × Json)) : Res Json :=
 def mMembers (n : Node) (props : List (String × Json)) (deps : Option Json)
     (items defs definitions prefixItems additionalItems contains unevaluatedItems patternProperties additionalProperties propertyNames unevaluatedProperties allOf anyOf oneOf not_ if_ then_ else_ dependentSchemas contentSchema : List (String × Json)) : List (String × Json) :=
   mTyp n ++ props ++ mem "dependencies" deps ++ items ++
-  mem "enum" (n.enum.map fun l => sortJson (.arr l)) ++ anyOf ++ oneOf ++
+  mem "enum" (n.enum.map fun l => sortJson (.arr l)) ++ anyOf ++ oneOf ++ mVocab n ++
   mStr "$id" n.id ++ mStr "$schema" n.schema ++ mStr "$ref" n.ref ++ mStr "$comment" n.comment ++
   defs ++ definitions ++
   mStr "$anchor" n.anchor ++ mStr "$dynamicAnchor" n.dynamicAnchor ++ mStr "$dynamicRef" n.dynamicRef ++
-  mVocab n ++
   mStr "title" n.title ++ mStr "description" n.description ++ mem "default" n.default ++
   mBool "deprecated" n.deprecated ++ mBool "readOnly" n.readOnly ++ mBool "writeOnly" n.writeOnly ++
   mNonEmptyList "examples" n.examples ++
